@@ -95,8 +95,14 @@ var props = map[string]prop{
 		"reach.reorg", "reach.light-revert", "reach.light-spent-verified", "probe.light.verified"),
 	"C06": e1prop("C06", 240, 6000, e1Case+"reorg-heavy profile. On every revert: RevertBlock's diffs are the reverse of ApplyBlock's; the store (ids, fields, leaf indices, proofs) equals its digest from before the block was applied and the reference ledger of the parent; every element verifies against the parent state; on re-apply state encoding and diffs are byte-identical to the first apply. Non-trivial = at least one revert with non-empty diffs.",
 		"reach.reorg", "reach.revert-nonempty", "reach.reapply", "reach.reorg.depth3"),
-	"C09": e1prop("C09", 200, 5000, e1Case+"at every validated block: inputs (state, block incl. every proof, supplement) byte-equal before/after ValidateBlock and ApplyBlock; repeated calls agree; decode(encode(b)) copy agrees in verdict, state bytes and diffs; per-transaction MidState validation agrees with ValidateBlock; updates and DeepCopy share no memory with inputs; different nodes reaching the same block hold byte-identical state and diffs. (Concurrent callers: engine E3, added separately.)",
-		"probe.c09.validate", "probe.c09.apply", "probe.c09.deepcopy"),
+	"C09": func() prop {
+		p := e1prop("C09", 200, 5000, e1Case+"at every validated block (valid or not, incl. corrupted copies): inputs (state, block incl. every proof, supplement) byte-equal before/after ValidateBlock and ApplyBlock; repeated calls agree; decode(encode(b)) copy agrees in verdict, state bytes and diffs; per-transaction MidState validation agrees with ValidateBlock; updates and DeepCopy share no memory with inputs; different nodes reaching the same block hold byte-identical state and diffs; ID, signature-hash and address functions give the same result when other hashing happens in between and leave their arguments unchanged. Concurrent stage (engine E3, second part built with the race detector): at the end of every run 2-8 caller goroutines (count, work lists and one contended sample drawn from the tape) validate, apply, revert, hash, copy and encode the very same block / state / supplement objects at once; every result must equal the sequential one, inputs must be byte-identical afterwards, and a race-detector report during a run is a violation.",
+			"probe.c09.validate", "probe.c09.apply", "probe.c09.deepcopy", "probe.c09.pure", "probe.c09.concurrent-stage", "probe.c09.concurrent-calls")
+		race := e1("C09", 64, 1600)
+		race.Engine, race.Race = "E3", true
+		p.Parts = append(p.Parts, race)
+		return p
+	}(),
 	"C10": e1prop("C10", 240, 6000, e1Case+"corruption-heavy profile: encoded blocks, block batches, locators and transaction sets are bit-flipped, truncated and spliced in transit and fed to the real decoders and, when they still decode, to ValidateBlock / ValidateTransaction / ValidateV2Transaction on nodes in reachable states; every call runs under recover; accepted blocks are applied and (through reorgs) reverted. Non-trivial = at least one corrupted message reached a decoder.",
 		"fault.bitflip", "fault.truncate", "fault.splice", "node.undecodable"),
 	"C20": e1prop("C20", 240, 6000, e1Case+"2-4 light clients per run consume their node's ApplyUpdate/RevertUpdate stream after a JSON round trip of every update and must end with proofs that verify against the state exactly like in-memory clients (every tracked element, incl. spent ones and contracts, across reorgs).",
